@@ -425,8 +425,8 @@ func c12CheckNorm(c c12Norm) *kit.Fail {
 	tolp := 1e-15 + 1e-11*pm + condq
 	if e := math.Abs(d.CDF(xq) - p); e > tolp {
 		return kit.Failf("normal-inverse", "InvCDF(NormalDist{%v,%v})(%.17g) = %.17g but CDF there = %.17g (diff %g, allowed %g)", mu, sg, p, xq, d.CDF(xq), d.CDF(xq)-p, tolp)
-	} else if mu == 0 {
-		kit.NoteMax("normal (mu=0): worst |CDF(InvCDF(p)) - p| / min(p,1-p) (allowed 1e-11 + 1e-15/min)", e/pm)
+	} else {
+		kit.NoteMax("normal: worst |CDF(InvCDF(p)) - p| relative to its allowance (1e-15 + 1e-11·min(p,1-p) + conditioning)", e/tolp)
 	}
 	if e := math.Abs(c12NCDF(zq) - p); e > 1e-13+1e-11*pm+condq {
 		return kit.Failf("normal-inverse-vs-quadrature", "InvCDF(NormalDist{%v,%v})(%.17g) = %.17g, reference distribution function there %.17g", mu, sg, p, xq, c12NCDF(zq))
